@@ -4,6 +4,7 @@ From CV Require Import Base.Tac Base.Cmp Base.Ext Model.C08_NUTS.
 From CV Require Import Proofs.C08_Prog Proofs.C08_Tree Proofs.C08_Top Proofs.C08_Block Proofs.C08_Sim Proofs.C08_Cycle Proofs.C08_SliceTop
                        Proofs.C08_Closed Proofs.C08_Finite.
 From Coq Require Import QArith.
+Local Open Scope Q_scope.
 
 (* ---- one slice level: the uniform distribution on the slice of the WHOLE state space is invariant --------------- *)
 (* S any type with a duplicate-free list `states` of all its elements and a decidable equality; leap any map whose two
@@ -62,7 +63,8 @@ Print Assumptions C08_slice_level_classes.
    is pi -- every max_depth, every U-turn predicate, every Hamiltonian.
    _partial with respect to the property text: what is NOT formalised is (i) that for the real slice variable
    log u = H0 - Exp(1) the class masses are the integrals of e^t (real analysis; the reduction to finitely many classes is
-   C08_slice_level_classes), (ii) that momentum resampling preserves pi (a hypothesis on R here), (iii) the passage from a
+   C08_slice_level_classes), (ii) that momentum resampling preserves pi is a hypothesis on R here (discharged for product state spaces by
+   C08_momentum_refresh_preserves below), (iii) the passage from a
    finite state space to R^2d (integration over orbits in place of the sum over states; the per-orbit statement is
    C08_orbit_stationary_alldepth, volume preservation C08_leapfrog_volume). *)
 Theorem C08_finite_space_target_invariant_partial :
@@ -93,6 +95,23 @@ Proof.
   - intros R HR n k. exact (chain_invariant S leap Hb eqb Heq states ND Hall ham lgd uturn alpha guard Hf levels md R Hlv Hpi HR n k).
 Qed.
 Print Assumptions C08_finite_space_target_invariant_partial.
+
+(* ---- momentum refreshment preserves the target ---------------------------------------------------------------- *)
+(* states = positions x momenta; redrawing the momentum from its conditional law given the position,
+   R((x,m),(x',m')) = [x = x'] pi(x',m') / sum_m'' pi(x',m''), preserves EVERY pi (for pi = e^logd(x) e^(-K(m)) the
+   conditional is the law N(0, I) of the momentum whatever x: what NUTS.step draws first).  This is the hypothesis on R in
+   C08_finite_space_target_invariant_partial for state spaces of product form. *)
+Theorem C08_momentum_refresh_preserves :
+  forall (X M : Type) (eqbX : X -> X -> bool), (forall a b, eqbX a b = true <-> a = b) ->
+  forall (xs : list X) (ms : list M), NoDup xs ->
+  forall (pi : X * M -> Q) (s' : X * M), In (fst s') xs -> ~ Zx X M ms pi (fst s') == 0 ->
+  (Zx X M ms pi (fst s') == ssum (fun m => pi (fst s', m)) ms) /\
+  ssum (fun s => pi s * gibbs X M eqbX ms pi s s') (list_prod xs ms) == pi s'.
+Proof.
+  intros X M eqbX Heq xs ms ND pi s' Hin Hz. split; [reflexivity|].
+  exact (gibbs_preserves X M eqbX Heq xs ms ND pi s' Hin Hz).
+Qed.
+Print Assumptions C08_momentum_refresh_preserves.
 
 (* ---- non-vacuity ------------------------------------------------------------------------------------------------ *)
 (* three states on one orbit (None -> Some true -> Some false -> None), Hamiltonians 0, -1, -3, two slice levels
